@@ -11,12 +11,9 @@ MANIFEST = dict(
     technique="Lean 4 proof over a model with schemas and call-site table regenerated from source + three-way differential run + execution of the library's serialisers",
     design="5/C10",
 )
-GEN = ["Schemas", "DumpSites", "Builders"]
-THEOREMS = [
-    "c10_translated",
-    "c10_lossless",
-    "c10_added_are_defaults",
-    "c10_dump_sites_use_wire_names",
+GEN = ["Schemas", "DumpSites"]
+SUPP_GEN = ["Builders"]
+SUPP_THEOREMS = [
     "c10_builders_fit_schemas",
     "c10_names_apart",
     "c10_construct_by_attribute_names",
@@ -24,6 +21,12 @@ THEOREMS = [
     "c10_helpers_emit_wire_form",
     "c10_parse_tables_fit_schemas",
     "c10_parse_dispatch_lossless",
+]
+THEOREMS = [
+    "c10_translated",
+    "c10_lossless",
+    "c10_added_are_defaults",
+    "c10_dump_sites_use_wire_names",
 ]
 RULE = (
     "lossless: every protocol class x every optional-member subset (<=4; seeded beyond) x extras {none, random, "
